@@ -332,3 +332,44 @@ func (p *Program) declaringPart(nt *types.Named, f *types.Var, depth int) *types
 	}
 	return nil
 }
+
+// selField: the struct field a selection denotes — a real one, or one synthesized by the engine for the
+// assignment of a whole by-value part (engine.partAssign).
+func (p *Program) selField(info *types.Info, se *ast.SelectorExpr) *types.Var {
+	if fv, ok := p.synthSel[se]; ok {
+		return fv
+	}
+	if sel, ok := info.Selections[se]; ok && sel.Kind() == types.FieldVal {
+		fv, _ := sel.Obj().(*types.Var)
+		return fv
+	}
+	return nil
+}
+
+// stmtAssignsField: the assignment statement writes fv — directly (x.f = v), or by assigning a whole
+// by-value part that contains it (x.part = T{…}).
+func (p *Program) stmtAssignsField(info *types.Info, as *ast.AssignStmt, fv *types.Var) bool {
+	for _, l := range as.Lhs {
+		se, ok := ast.Unparen(l).(*ast.SelectorExpr)
+		if !ok {
+			continue
+		}
+		sel, ok := info.Selections[se]
+		if !ok || sel.Kind() != types.FieldVal {
+			continue
+		}
+		if sel.Obj() == types.Object(fv) {
+			return true
+		}
+		if pf, isVar := sel.Obj().(*types.Var); isVar && p.isPartField(pf) {
+			if nt, ok := pf.Type().(*types.Named); ok {
+				for _, g := range p.deepFields(nt, 0) {
+					if g == fv {
+						return true
+					}
+				}
+			}
+		}
+	}
+	return false
+}
